@@ -141,7 +141,14 @@ def run_diff(case, res):
     try:
         out = OutStream(term, pty)
         inp = ScriptedIn(term, pty)
-        win = CursorAwareWindow(out_stream=out, in_stream=inp)
+        cbmode = case.get("callback", "collect")
+        got_extra = []
+
+        def raising_cb(b):
+            raise RuntimeError("the application's extra_bytes_callback failed")
+
+        cb = None if cbmode == "none" else raising_cb if cbmode == "raises" else got_extra.append
+        win = CursorAwareWindow(out_stream=out, in_stream=inp, extra_bytes_callback=cb)
         _, e = call(win.__enter__)
         if e is not None:
             res.viol("enter_raised", error=exc_str(e), case=case)
@@ -198,10 +205,20 @@ def run_diff(case, res):
 
                 inp.on_read = on_read
                 nlog = len(term.report_log)
+                typed = op.get("typed_ahead") or ""
+                inp.before = typed  # input typed ahead of the terminal's report
                 ret, e = call(win.get_cursor_vertical_diff)
                 inp.on_read = None
                 for ev in during:
                     ev.pop("done", None)
+                if typed and cbmode in ("none", "raises") and e is not None and isinstance(e, (ValueError, RuntimeError)) and not during:
+                    # documented: without a callback the preceding bytes make the query raise ValueError (and a failing
+                    # callback propagates).  Nothing was accounted; the movement is still outstanding for the next query.
+                    res.label("query_failed_as_documented")
+                    res.nontrivial = True
+                    inp._cur = ""
+                    dirty = True
+                    continue
                 if e is not None:
                     res.viol("query_raised", error=exc_str(e), **ctx)
                     return res
@@ -280,6 +297,7 @@ def strategy():
         st.fixed_dictionaries({"op": st.just("resize"), "h": st.one_of(st.integers(2, 8), st.sampled_from([24, 50, 10]))}),
         st.fixed_dictionaries({"op": st.just("query"), "during": during}),
         st.fixed_dictionaries({"op": st.just("query"), "during": st.just([])}),
+        st.fixed_dictionaries({"op": st.just("query"), "during": st.just([]), "typed_ahead": st.sampled_from(["x", "ls\n", "\x1b[A", "12;3"])}),
     )
     diff = st.fixed_dictionaries(
         {
@@ -287,6 +305,7 @@ def strategy():
             "h": st.one_of(st.integers(2, 7), st.integers(2, 7), st.sampled_from([24, 50])),
             "w": st.just(8),
             "history_lines": st.one_of(st.integers(0, 9), st.integers(0, 60)),
+            "callback": st.sampled_from(["collect", "collect", "none", "raises"]),
             "steps": st.lists(step, min_size=1, max_size=10).map(
                 lambda steps: [{"op": "render", "n": 1 + len(steps) % 3, "cursor_row": len(steps) % 2}] + steps
             ),
